@@ -10,6 +10,8 @@ package main
 //	r  the held connection is released: Serve registers it (or finds Shutdown signalled)
 //	0 1  the peer of session 0 / 1 goes away: the session runs up to its conn.Close()
 //	a b  the Close of session 0 / 1 is let through (then the session finishes)
+//	q w  the peer of session 0 / 1 sends a request; its operation handler blocks (request in flight)
+//	h j  the handler of session 0 / 1 is released: the response must reach the peer
 //	S  Shutdown is called and runs until it is closing the listener
 //	k  the listener close is let through: Shutdown goes on to wait
 //	x  the context ends
@@ -44,6 +46,7 @@ type shutdownRun struct {
 	problems     []string
 	shReturnedAt time.Time
 	mu           sync.Mutex
+	hgate        [2]*gate // the operation handler of session i waits here
 }
 
 func wait(d time.Duration, pred func() bool) bool {
@@ -85,6 +88,34 @@ func (r *shutdownRun) poll() {
 	}
 }
 
+func gateState(g *gate) string {
+	if g == nil {
+		return ""
+	}
+	select {
+	case <-g.arrived:
+		select {
+		case <-g.released:
+			return ""
+		default:
+			return "inflight"
+		}
+	default:
+		return ""
+	}
+}
+
+func (r *shutdownRun) connStateOf(i int) string {
+	st := connState(r.conns[i])
+	if st == "running" && i < 2 && gateState(r.hgate[i]) == "inflight" {
+		st = "inflight"
+	}
+	r.conns[i].mu.Lock()
+	n := len(splitMessages(r.conns[i].out))
+	r.conns[i].mu.Unlock()
+	return fmt.Sprintf("%s:%d", st, n)
+}
+
 func connState(c *memConn) string {
 	c.mu.Lock()
 	defer c.mu.Unlock()
@@ -102,6 +133,14 @@ func connState(c *memConn) string {
 func runShutdownSeq(seq string) (obs string, problems []string) {
 	r := &shutdownRun{served: make(chan error, 1), shDone: make(chan error, 1)}
 	r.srv = &kmip.Server{Log: log.New(io.Discard, "", 0)}
+	r.hgate = [2]*gate{newGate("handler-0"), newGate("handler-1")}
+	r.srv.Handle(kmip.OPERATION_GET, func(req *kmip.RequestContext, item *kmip.RequestBatchItem) (interface{}, error) {
+		id := item.RequestPayload.(kmip.GetRequest).UniqueIdentifier
+		if id == "0" || id == "1" {
+			r.hgate[int(id[0]-'0')].arrive()
+		}
+		return kmip.GetResponse{UniqueIdentifier: id}, nil
+	})
 	r.lis = newMemListener()
 	r.lis.holdAccepts = true
 	r.lis.closeGate = newGate("listener-close")
@@ -118,8 +157,8 @@ func runShutdownSeq(seq string) (obs string, problems []string) {
 			time.Sleep(300 * time.Microsecond)
 			r.poll()
 			cur := r.serveRes + "|" + r.shRes
-			for _, c := range r.conns {
-				cur += "|" + connState(c)
+			for i := range r.conns {
+				cur += "|" + r.connStateOf(i)
 			}
 			cur += fmt.Sprint(r.heldCount())
 			if cur == last {
@@ -156,6 +195,26 @@ func runShutdownSeq(seq string) (obs string, problems []string) {
 			if i < len(r.conns) {
 				r.conns[i].peerClose()
 			}
+		case 'q', 'w':
+			i := map[rune]int{'q': 0, 'w': 1}[tok]
+			if i < len(r.conns) {
+				greq := kmip.Request{Header: kmip.RequestHeader{Version: kmip.ProtocolVersion{Major: 1, Minor: 4}, BatchCount: 1},
+					BatchItems: []kmip.RequestBatchItem{{Operation: kmip.OPERATION_GET, RequestPayload: kmip.GetRequest{UniqueIdentifier: fmt.Sprint(i)}}}}
+				_, gb := implEncode(&greq)
+				r.conns[i].peerSend(gb)
+				if !r.hgate[i].waitArrived(2 * time.Second) {
+					problems = append(problems, fmt.Sprintf("the request sent on running session %d never reached its operation handler", i))
+				}
+			}
+		case 'h', 'j':
+			i := map[rune]int{'h': 0, 'j': 1}[tok]
+			if i < len(r.conns) {
+				r.hgate[i].release()
+				c := r.conns[i]
+				if !c.waitUntil(2*time.Second, func() bool { return len(splitMessages(c.out)) >= 1 || c.localClosed || c.closing }) || len(splitMessages(c.out)) < 1 {
+					problems = append(problems, fmt.Sprintf("the request in flight on session %d was aborted: its handler returned but no response reached the peer", i))
+				}
+			}
 		case 'a', 'b':
 			i := int(tok - 'a')
 			if i < len(r.conns) {
@@ -177,13 +236,16 @@ func runShutdownSeq(seq string) (obs string, problems []string) {
 				if connState(c) == "running" {
 					problems = append(problems, fmt.Sprintf("Shutdown returned nil while session %d is running (or a session was started after it returned)", i))
 				}
+				if i < 2 && gateState(r.hgate[i]) == "inflight" {
+					problems = append(problems, fmt.Sprintf("Shutdown returned nil while the operation handler of session %d is still running", i))
+				}
 			}
 		}
 	}
 	r.poll()
 	var cs []string
-	for _, c := range r.conns {
-		cs = append(cs, connState(c))
+	for i := range r.conns {
+		cs = append(cs, r.connStateOf(i))
 	}
 	sh := r.shRes
 	if sh == "" {
@@ -205,6 +267,8 @@ func runShutdownSeq(seq string) (obs string, problems []string) {
 		g.release()
 	}
 	r.lis.mu.Unlock()
+	r.hgate[0].release()
+	r.hgate[1].release()
 	for _, c := range r.conns {
 		c.peerClose()
 		c.closeGate.release()
@@ -240,6 +304,7 @@ func genShutdownSeqs(maxLen int) []string {
 		running                   [2]bool
 		ended                     [2]bool
 		closed                    [2]bool
+		asked, inflight           [2]bool
 		sh, k, x                  bool
 		acceptorBusy              bool // holds a connection at the gate
 		serveReturned             bool
@@ -278,10 +343,20 @@ func genShutdownSeqs(maxLen int) []string {
 			rec(prefix+"r", n)
 		}
 		for i := 0; i < 2; i++ {
-			if s.running[i] && !s.ended[i] {
+			if s.running[i] && !s.ended[i] && !s.inflight[i] {
 				n := s
 				n.ended[i] = true
 				rec(prefix+string(rune('0'+i)), n)
+			}
+			if s.running[i] && !s.ended[i] && !s.asked[i] {
+				n := s
+				n.asked[i], n.inflight[i] = true, true
+				rec(prefix+string("qw"[i]), n)
+			}
+			if s.inflight[i] {
+				n := s
+				n.inflight[i] = false
+				rec(prefix+string("hj"[i]), n)
 			}
 			if s.ended[i] && !s.closed[i] {
 				n := s
@@ -317,7 +392,7 @@ func suiteShutdown(args []string) {
 	fs.Parse(args)
 	cw := newCaseWriter(*dir)
 	rep := &Report{Suite: "shutdown", Seed: *seed, Distribution: map[string]int{}}
-	rep.Rule = "every well-formed schedule over {c connect, r release accepted connection, 0/1 peer of a session goes away, a/b the session's conn.Close is let through, S Shutdown up to the listener close, k let the close through, x context ends} up to the length bound, 1-2 connections; all distinct; non-trivial = contains S and at least one connection"
+	rep.Rule = "every well-formed schedule over {c connect, r release accepted connection, 0/1 peer of a session goes away, a/b the session's conn.Close is let through, q/w a request arrives on a session and its handler blocks, h/j that handler is released, S Shutdown up to the listener close, k let the close through, x context ends} up to the length bound, 1-2 connections; all distinct; non-trivial = contains S and at least one connection"
 	seqs := genShutdownSeqs(*maxLen)
 	type res struct {
 		obs      string
